@@ -41,6 +41,19 @@ Theorem C16_unnest_where_filtered : forall h dom x id t, Nat.eqb id x = false ->
 Proof. intros. apply unnest_where_filtered; assumption. Qed.
 Print Assumptions C16_unnest_where_filtered.
 
+(* a DISJUNCTION over items / attributes of the flattened element, an ITEM of the element selected (not the element itself): one
+   row per element that satisfies either branch - two elements of one parent are two rows, whichever branch admits them -, each
+   carrying its own item.  (The shape of the defect repaired by 3f0ecc1: the implementation keyed the rows of the right branch on the
+   parent only.) *)
+Theorem C16_unnest_item_disjunction : forall h dom x id t, Nat.eqb id x = false -> t1 x t = true -> mentions t = true ->
+  forall m m1 o1 w1 m2 o2 w2,
+  run_query h dom [TMap m (TFlat id t)]
+    (Some (CElseIf (CCmp o1 (TMap m1 (TFlat id t)) (TLit w1)) (CCmp o2 (TMap m2 (TFlat id t)) (TLit w2))))
+  = flat_map (fun v => map (fun e => [apply_map h m e])
+                           (filter (fun e => apply_op o1 (apply_map h m1 e) w1 || apply_op o2 (apply_map h m2 e) w2) (inner h x t v))) (dom x).
+Proof. intros. apply unnest_item_disjunction; assumption. Qed.
+Print Assumptions C16_unnest_item_disjunction.
+
 Example C16_where_nonvacuous :
   let h := [[VTup [AInt 1; AInt 2]; VInt 0]; [VTup []; VInt 1]; [VTup [AInt 2; AInt 2; AInt 0]; VInt 1]; [VInt 7; VInt 0]] in
   let dom := fun k : key => if Nat.eqb k 1 then [VObj 0; VObj 1; VObj 2; VObj 3] else [] in
